@@ -605,25 +605,26 @@ theorem entry_checked_clean (s : St) (pre args a : Nat) (evs : List Ev)
     rw [this]
     exact ⟨rfl, ⟨rfl, rfl, rfl, rfl⟩, Nat.le_refl _, Nat.le_refl _, rfl⟩
 
-/-! ## F-C07-4: a `yield` at the top level of a chunk leaves the chunk's frame behind -/
+/-! ## F-C07-4 (repaired by fix 20565a0): a `yield` at the top level of a chunk ends the run cleanly -/
 
-/-- `compile_and_run("yield 1")` on a fresh runtime: the run *succeeds* with the yielded value, the
-registers are truncated, but the chunk's frame stays on the call stack (H1 reports
-`(0, 1, 0, 0, 0)`), and a second such run adds another one. `Yield` is not an event of `Ev`: all
-`entry_*` theorems are about executions in which no frame other than a generator's executes `Yield`
-(generators run in their own VM, `genResume`). -/
-theorem run_yield_not_clean :
+/-- `compile_and_run("yield 1")` on a fresh runtime, twice: the run succeeds with the yielded value
+and the chunk's frame is popped (before the fix H1 reported `(0, 1, 0, 0, 0)` and `(0, 2, 0, 0, 0)`). -/
+theorem run_yield_clean :
     let s1 := yieldAtTop (run [.newFrame 4] (enterChecked 0 0 (.koto 0) init))
-    let s2 := yieldAtTop (run [.newFrame 4] (enterChecked 0 0 (.koto 0) s1))
-    s1.conts = [] ∧ ¬ Clean init.vm s1.vm ∧ snapshot s1.vm = (0, 1, 0, 0, 0) ∧
-    snapshot s2.vm = (0, 2, 0, 0, 0) := by decide
+    let s2 := yieldAtTop (run [.newFrame 4, .seqStart] (enterChecked 0 0 (.koto 0) s1))
+    s1.conts = [] ∧ Clean init.vm s1.vm ∧ snapshot s1.vm = (0, 0, 0, 0, 0) ∧
+    Clean init.vm s2.vm := by decide
 
-/-- A failed run after such a run is clean relative to *its own* start (the leftover frame is not
-touched, nothing is added). -/
-theorem failed_run_after_yield_example :
-    let s1 := yieldAtTop (run [.newFrame 4] (enterChecked 0 0 (.koto 0) init))
-    let s2 := runEntryChecked 0 0 (.koto 0) [.newFrame 4, .seqStart, .call 2 0, .newFrame 1, .raise true] s1
-    Exited s1 s2 ∧ Clean s1.vm s2.vm := by decide
+/-- For the bookkeeping a top-level `Yield` is a `Return` from the chunk's barrier frame, so the
+`entry_*` theorems cover it through the event `ret`. -/
+theorem yieldAtTop_eq_ret (vm : VM) (f : Frame) (rest : List Frame) (rr : Nat) (cs : List Cont)
+    (hs : vm.stack = f :: rest) (hb : f.barrier = true) :
+    yieldAtTop ⟨vm, .loop (.truncate rr) :: cs⟩ = step .ret ⟨vm, .loop (.truncate rr) :: cs⟩ := by
+  have hst := popTo_stop_of_barrier f rest vm hb
+  rcases hpt : popTo f rest vm with ⟨vm1, b⟩
+  rw [hpt] at hst
+  simp only [] at hst
+  simp [yieldAtTop, exitErr, popFrameD, popFrame, step, inLoop, hs, hpt, hst.1]
 
 /-! ## F-C07-2 (repaired by fix 97373d1): builders are unwound with their frames -/
 
